@@ -42,6 +42,7 @@ type FnCtx struct {
 	contract         *Contract
 	smt              *Script
 	floatsIEEE       bool
+	inReturnDefers   int // >0 while the deferred calls of a normally returning function are executed
 	callsiteMatched  map[*Clause]bool // callsite clauses that applied to at least one call of the function
 	excludedAxioms   map[string]bool // lemma proofs: axioms that must not be used (the one being proved)
 	heapSorts        map[string]string
@@ -901,6 +902,7 @@ func (fr *Frame) iterInvariants(lp *Loop, st *State) []iterInv {
 	env.old = fr.iterCallerEntry()
 	env.parentEntry = fr.parentEntryOf(fr.iterFv.Fn)
 	env.names["iter"] = recv
+	env.outerFr = fr.parent
 	m := c.termOf(recv)
 	hasIn := func(n, t string) string {
 		hasO, inner := c.mapRead(st, recv.T, m, n)
